@@ -442,22 +442,23 @@ func (p *Parser) isShortVarInit() bool {
 	return err == nil
 }
 
-func (p *Parser) checkNewVariableNameToken(token lexer.Token, ctx context) error {
+func (p *Parser) checkNewVariableNameToken(token lexer.Token, global bool, ctx context) error {
 	name := token.Value()
 	_, exists := ctx.findVariable(name, p.prefix, ctx.global())
 
 	if exists {
 		return p.atError(fmt.Sprintf("variable %s has already been defined", name), token)
 	}
-	return p.checkImportNamespace(token, ctx)
+	return p.checkImportNamespace(token, global, ctx)
 }
 
-// checkImportNamespace makes sure a name of the main file which is global for the target doesn't start with the prefix of
+// checkImportNamespace makes sure a name which is global for the target doesn't start with the prefix of
 // an imported file, because it would be the same name as a global of that file (e.g. mac65d3e_counter
 // in the main file and counter in the imported file with the prefix mac65d3e).
-func (p *Parser) checkImportNamespace(token lexer.Token, ctx context) error {
-	// Names of imported files are prefixed themselves and variables within functions are local.
-	if len(p.prefix) > 0 || ctx.findScope(SCOPE_FUNCTION) {
+func (p *Parser) checkImportNamespace(token lexer.Token, global bool, ctx context) error {
+	// Variables within functions are local and the global names of imported files are prefixed themselves. The
+	// names of an imported file which are defined within a top-level block or loop header are not prefixed though.
+	if ctx.findScope(SCOPE_FUNCTION) || (len(p.prefix) > 0 && global) {
 		return nil
 	}
 	name := token.Value()
@@ -1057,7 +1058,7 @@ func (p *Parser) evaluateVarDefinition(ctx context) (Statement, error) {
 		alreadyDefined := 0
 
 		for _, nameToken := range nameTokens {
-			err := p.checkImportNamespace(nameToken, ctx)
+			err := p.checkImportNamespace(nameToken, ctx.global(), ctx)
 
 			if err != nil {
 				return nil, err
@@ -1065,7 +1066,7 @@ func (p *Parser) evaluateVarDefinition(ctx context) (Statement, error) {
 		}
 
 		for _, nameToken := range nameTokens {
-			err := p.checkNewVariableNameToken(nameToken, ctx)
+			err := p.checkNewVariableNameToken(nameToken, ctx.global(), ctx)
 
 			if err != nil {
 				// Only allow "re-definition" of variable via the short init operator.
@@ -1080,7 +1081,7 @@ func (p *Parser) evaluateVarDefinition(ctx context) (Statement, error) {
 			return nil, p.atError("no new variables", firstNameToken)
 		}
 	} else {
-		err := p.checkNewVariableNameToken(firstNameToken, ctx)
+		err := p.checkNewVariableNameToken(firstNameToken, ctx.global(), ctx)
 
 		if err != nil {
 			return nil, err
@@ -1442,7 +1443,7 @@ func (p *Parser) evaluateFunctionDefinition(ctx context) (Statement, error) {
 	if exists {
 		return nil, p.expectedError("unique function name", nameToken)
 	}
-	err := p.checkImportNamespace(nameToken, ctx)
+	err := p.checkImportNamespace(nameToken, true, ctx)
 
 	if err != nil {
 		return nil, err
@@ -1862,7 +1863,7 @@ func (p *Parser) evaluateFor(ctx context) (Statement, error) {
 	// If next token is an identifier and the one after it a comma or a short-init operator and range keyword, parse a for-range statement.
 	if nextTokenType == lexer.IDENTIFIER && (nextAfterNextTokenType == lexer.COMMA || (nextAfterNextTokenType == lexer.SHORT_INIT_OPERATOR && p.peekAt(2).Type() == lexer.RANGE)) {
 		p.eat()
-		err := p.checkNewVariableNameToken(nextToken, ctx)
+		err := p.checkNewVariableNameToken(nextToken, false, ctx)
 
 		if err != nil {
 			return nil, err
@@ -1881,7 +1882,7 @@ func (p *Parser) evaluateFor(ctx context) (Statement, error) {
 			if nextToken.Value() == indexVarName {
 				return nil, p.atError(fmt.Sprintf("variable %s has already been defined", indexVarName), nextToken)
 			}
-			err = p.checkNewVariableNameToken(nextToken, ctx)
+			err = p.checkNewVariableNameToken(nextToken, false, ctx)
 
 			if err != nil {
 				return nil, err
